@@ -246,6 +246,19 @@ func propFaithful(t *rapid.T) {
 			t.Fatalf("C19: %v", err)
 		}
 		var labels []string
+		// the arguments belong to the point they were parsed for: changing one point through the public
+		// SetArg / AddArg (as post-processors do) must not show on another point that carries the same tag text
+		if rapid.IntRange(0, 2).Draw(t, "mutatesibling") == 0 {
+			if p1, pan := parse(ts.render()); pan == nil {
+				p1.SetArg(component_definition.ArgRequired, "false")
+				p1.AddArg(component_definition.ArgQualifier, "leaked")
+				p1.SetArg("C19extra", "1")
+				if err := checkFaithful(ts); err != nil {
+					t.Fatalf("C19: after another point with the same tag text was modified through SetArg / AddArg: %v", err)
+				}
+				labels = append(labels, "sibling-point-modified")
+			}
+		}
 		if ts.Rich {
 			labels = append(labels, "bracket-group-with-separator")
 		}
